@@ -109,6 +109,7 @@ class World:
         k = scn.get('kernel', {})
         self.sim = Sim(scn['seed'], read_cost_ns=k.get('read_cost_ns', 1000), lmax_ns=k.get('lmax_ns', 50_000),
                        keep_log=keep_log)
+        self.sim.eager_wake = float(k.get('eager_wake', 0.0))
         self.bus = SimBus(self.sim, scn.get('latency'), scn.get('faults'), seed=scn['seed'])
         self.deliveries = []
         self.delivery_hooks = []     # callables(stack, listener, pgn, sa, data) run inside the listener callback (application reacting)
